@@ -349,7 +349,9 @@ theorem MBWaited.step {cfg : MBCfg} {s s' : MB} (h : MBInv cfg s) (hu : MBUnsche
       intro sd
       have := h.wgCount sd
       rw [hwg] at this
-      cases hs : s.scheduled sd <;> simp_all
+      cases hs : s.scheduled sd
+      · rfl
+      · simp [hs] at this; omega
     have hdead : ∀ i, s.g i = .dead := by
       intro i
       by_cases hi : s.g i = .dead
